@@ -237,10 +237,10 @@ mutual
     | .cdbl _ _, h => by simp [polyB] at h
     | .infty _, h => by simp [polyB] at h
     | .nan, h => by simp [polyB] at h
-    | .dummy _ _, h => by simp [polyB] at h
-    | .const _, h => by simp [polyB] at h
-    | .fsym _ _, h => by simp [polyB] at h
-    | .app _ _, h => by simp [polyB] at h
+    | .dummy _ _, _ => by simp [evalK]
+    | .const _, _ => by simp [evalK]
+    | .fsym _ _, _ => by simp [evalK]
+    | .app _ _, _ => by simp [evalK]
     | .bool _, h => by simp [polyB] at h
   theorem polyTerms_evalK_some : ∀ (ts : List (Expr × Expr)), polyTerms ts = true →
       ∃ v, evalTerms I ρ ts = some v
